@@ -126,6 +126,7 @@ func (t *Tokenizer) Load(r io.Reader, handler TokenHandler) (err error) {
 		if err != nil {
 			return
 		}
+		t.noff -= len(buf) - skip // offsets restart at 0 in the next buffer
 		skip = 0
 		if eof {
 			break
